@@ -263,11 +263,11 @@ PROPS = {
     'C04': dict(
         title='Zinc text conforms to the Project Haystack grammar in both directions',
         verus=[('u_zparse', [r'^parse_str_escape$', r'^parse_str_unicode_escape$', r'^parse_str$', r'^Lexer::read$', r'^parse_literal$', r'^parse_id$', r'^lemma_lit_run_bytes$', r'^parse_unit$', r'^is_unit_char$', r'^parse_uri$', r'^parse_time_zone$']),
-               ('u_enc', [r'^write_quoted_str$', r'^write_str$', r'::to_zinc$', r'::zinc_encode$', r'^list_to_zinc$', r'^write_dict_tags$', r'^Column::to_zinc$', r'^Dict::to_zinc$', r'^Grid::to_zinc$', r'^Value::to_zinc$', r'^lemma_ver_line$', r'^enc_(value|items|tag|tags|meta|col|cols|cells|rows|grid)$', r'^grid_head$', r'^grid_mid$', r'^dict_find$'])],
+               ('u_enc', [r'^write_quoted_str$', r'^write_str$', r'::to_zinc$', r'::zinc_encode$', r'^list_to_zinc$', r'^write_dict_tags$', r'^Column::to_zinc$', r'^Dict::to_zinc$', r'^Grid::to_zinc$', r'^Value::to_zinc$', r'^enc_(value|items|tag|tags|meta|col|cols|cells|rows|grid)$', r'^grid_head$', r'^grid_mid$', r'^dict_find$'])],
         kani=[dict(harness='k_scanner_classes', klass='complete', schema=['u8'], family=None, target='Scanner::is_* byte classes'),
               dict(harness='k_unit_char_class', klass='complete', schema=['u8'], family=None, target='zinc number::is_unit_char'),
               dict(harness='k_u8_classes', klass='complete', schema=['u8'], family=None, target='u8::is_ascii_*')],
-        witness='enum:zinc-escape',
+        witness=['enum:zinc-escape', 'enum:zinc-spellings'],
         design_ref='DESIGN.md section 4, C04',
         level_text=('Proof, per token class, against the Project Haystack Zinc grammar (the oracle is the grammar, not the code): Verus '
                     'proves one clause per string escape letter of parse_str_escape (\\b U+0008, \\f U+000C, \\n, \\r, \\t, \\", \\\\, \\$) '
@@ -278,14 +278,16 @@ PROPS = {
                     'followed by ( is decoded by the keyword table of the grammar: M R T F N NA NaN INF, anything else is an error. Writer side: '
                     'the keyword writers emit M R NA T F and the quoted-string writer emits " + enc(s) + " with enc written from the grammar. '
                     'Composite layout: a recursive specification enc_value of the grammar\'s list, dict and grid productions (commas between items and none '
-                    'after the last, name[:value] tags with the value omitted for markers, ver:"3.0" line, space-separated meta, column line, one line '
+                    'after the last, name[:value] tags with the value omitted for markers, a ver:"<the version the grid carries>" line, space-separated meta, column line, one line '
                     'per row with an empty cell for an absent tag, empty marker for a grid without rows, << >> around a nested grid and only there) is '
                     'proved to be exactly what the real List/Dict/Grid/Column/Value writers emit, for every value tree, with nested values always '
                     'written in inner-grid mode; DateTime is RFC 3339 text followed by a space and the zone name exactly when the value is not UTC.'),
         not_decided=('number spelling '
                      '(the string handed to str::parse::<f64>); the text core::fmt / chrono produce for numbers, dates, times, coordinates and the '
                      'capitalised XStr type (uninterpreted functions of the value); the reader side of composite layout '
-                     '(the decoder is proved panic-free and terminating, not against enc_value); Dict is seen through its entry list in key order. The unit class tests `> 128`, i.e. excludes '
+                     '(the decoder is proved panic-free and terminating, not against enc_value; the bounded enumerator enum:zinc-spellings checks 43 '
+                     'alternative spellings -- number forms, \\u escapes, list/dict separators, CRLF line endings incl. at end of input, nested grids -- '
+                     'against the plain spelling of the same value); Dict is seen through its entry list in key order. The unit class tests `> 128`, i.e. excludes '
                      'byte 0x80 that the grammar admits -- harmless: no database unit contains it (C15 lemma).'),
         technique='contract-based deductive verification: Verus per-letter postconditions on the real body + Kani complete byte-class harnesses',
     ),
@@ -331,8 +333,9 @@ PROPS = {
         kani=[dict(harness='k_reader_chunks_small', klass='bounded', bound='2-byte stream, <= 1 Interrupted result, symbolic chunk lengths',
                    target='Scanner::make / read_byte (reader contract)', timeout=600),
               dict(harness='k_reader_chunks', klass='bounded', bound='3-byte stream, <= 2 Interrupted results, symbolic chunk lengths',
-                   target='Scanner::make / read_byte (reader contract)', timeout=1500, thorough_only=True)],
-        witness='zinc', enums=['enum:stream-chunks'],
+                   target='Scanner::make / read_byte (reader contract)', timeout=1500, thorough_only=True),
+              dict(harness='k_json_number_exact', klass='complete', schema=['f64'], family='json-number', target='<Number as Serialize>::serialize (re-encoding a decoded number denotes the same f64)')],
+        witness='zinc', enums=['enum:stream-chunks', 'enum:reencode-stable', 'enum:lazy-rows'],
         design_ref='DESIGN.md section 4, C11',
         level_text=('Proof (Verus) of the second sentence only, as a frame argument: in the extracted decoder the reader is an opaque token '
                     'that only Scanner::make and read_byte can touch; every other function of the scanner, lexer and parsers -- including the '
@@ -340,9 +343,13 @@ PROPS = {
                     'the reader *contract* (one byte at a time, in order, EOF only at the end), so nothing above read_byte can observe how the '
                     'reader chunks its bytes: decoding is a function of the byte sequence and the position of the first I/O error. The '
                     'contract itself is cross-checked on the real make/read_byte by a bounded Kani harness with symbolic chunking.'),
-        not_decided=('(1) decode-encode-decode = decode: needs C01 for every value in the decoder\'s image; (3) that the lazy iterator '
-                     'consumes no further than the first token after a row (would need a token-level ghost trace of the lexer); the reader '
-                     'contract for streams longer than the bound (it is the documented behaviour of read_exact on a 1-byte buffer).'),
+        not_decided=('(1) decode-encode-decode = decode is not proved for all accepted texts (it needs C01 for every value in the decoder\'s image); '
+                     'what stands in: Kani proves over all f64 that the Hayson number writer emits a JSON number denoting exactly the value, and the '
+                     'bounded enumerator enum:reencode-stable re-encodes ~150 accepted texts in alternative spellings plus the three corpus files shipped '
+                     'with the repository (Zinc and Hayson) and demands value equality after one pass and a textual fixed point after it. '
+                     '(3) that the lazy iterator consumes no further than the first token after a row is checked by the bounded enumerator '
+                     'enum:lazy-rows only (a byte-counting reader over 24 grids, 8 shapes of first cell); a proof would need a token-level ghost trace '
+                     'of the lexer. The reader contract for streams longer than the Kani bound is the documented behaviour of read_exact on a 1-byte buffer.'),
     ),
     'C01': dict(
         title='Zinc encode -> decode returns the original value',
